@@ -137,6 +137,7 @@ def monitor(sess, extra):
     r = fw.MonResult()
     aead = sess.ids[2]
     models = {}
+    pending_failures = [0]
     for op in sess.ops:
         if op.ret is None:
             r.violation("C04:noreturn:%s" % op.op, "%s never returned" % op.id, sess, op)
@@ -155,6 +156,38 @@ def monitor(sess, extra):
             m.n = int(op.args["seq"])
             m.dead = False
             m.refused = False
+        elif op.op == "probe_ctl":
+            pending_failures[0] = int(op.args.get("fail_seal", "0"))
+        elif op.op == "seal" and aead == 0x7777:
+            m = models[name]
+            r.counts["evaluations"] += 1
+            inplace = op.args["api"] == "inplace"
+            if m.dead:
+                if op.err() != "MessageLimitReached":
+                    r.violation("C04:seal_after_limit:%s" % ("ok" if op.ok() else op.outcome()), "seal on an exhausted context returned %s" % op.outcome(), sess, op)
+                continue
+            if pending_failures[0] > 0:
+                pending_failures[0] -= 1
+                if op.err() != "SealError":
+                    r.violation("C04:seal_error_not_reported", "the AEAD failed but seal returned %s" % op.outcome(), sess, op)
+                    continue
+                r.counts["seal_errors_driven"] += 1
+                r.distinct.add((aead, "seal_error", op.args["api"]))
+                # nothing may have changed: same sequence number, no latch
+            else:
+                if not op.ok():
+                    r.violation("C04:early_refusal:%s" % op.outcome(), "seal at sequence number %d failed with %s (mock AEAD, no failure requested)" % (m.n, op.outcome()), sess, op)
+                    continue
+                tag = op.out("tag") if inplace else op.out("full")[-16:]
+                if m.bn is not None and tag[:12] != nonce(m.bn, m.n):
+                    seen = int.from_bytes(bytes(a ^ b for a, b in zip(tag[:12], m.bn)), "big")
+                    r.violation("C04:wrong_nonce", "the AEAD was called with the nonce of sequence number %d for the message that is number %d among the successfully sealed ones (an earlier failed seal must not consume a sequence number)" % (seen, m.n), sess, op)
+                else:
+                    r.distinct.add((aead, m.n))
+                m.advance()
+            st = (int(op.ret["seq"]), int(op.ret["ovf"])) if "seq" in op.ret else None
+            if st is not None and st != m.state():
+                r.violation("C04:state", "(seq, overflowed) = %s after the call, model says %s" % (st, m.state()), sess, op)
         elif op.op == "seal":
             m = models[name]
             r.counts["evaluations"] += 1
@@ -245,6 +278,35 @@ def build_volume(env, nmsgs, size):
     return cw
 
 
+def build_probe(env, reps):
+    """A mock AEAD (plugged in through the crate's public Aead trait) echoes the nonce in the tag and fails on
+    request: the nonce of every message is observed directly, and the SealError path - unreachable with real
+    AEADs below 2^36 bytes - is driven: a failed seal must not consume a sequence number, set the latch or
+    disturb the messages after it."""
+    g = gen.G(env.rnd)
+    rnd = env.rnd
+    cw = cl.CaseW()
+    for r in range(reps):
+        kem = gen.KEMS[r % 4]
+        s = cw.session(kem, [1, 3][r % 2], 0x7777, sid="q%d" % r)
+        key, bn = g.raw(32), (bytes.fromhex(BN_PATTERNS[r % len(BN_PATTERNS)]) if r % 2 else g.raw(12))
+        s.call("raw_s", key=key, bn=bn, es=g.raw({1: 32, 3: 64}[s.ids[1]]), out="S")
+        for p in (0, 254, (1 << 32) - 2, M64 - 6):
+            s.call("set_seq", ctx="S", seq=p)
+            for j in range(8):
+                if rnd.random() < 0.4:
+                    s.call("probe_ctl", fail_seal=rnd.choice([1, 1, 2]))
+                s.call("seal", ctx="S", api=rnd.choice(["alloc", "inplace"]), pt=g.rbytes(rnd.choice([0, 1, 16, 33])), aad=g.rbytes(rnd.choice([0, 3])))
+        s.call("probe_ctl", fail_seal=0)
+        # also through the real key schedule and the single-shot form
+        gen.add_pair(s, g, kem, rnd.choice(gen.MODES), sname="T", receiver=False)
+        s.call("probe_ctl", fail_seal=1)
+        s.call("seal", ctx="T", api="inplace", pt="0102", aad="-")
+        s.call("seal", ctx="T", api="alloc", pt="0102", aad="-")
+        s.call("seal", ctx="T", api="inplace", pt="0102", aad="-")
+    return cw
+
+
 def build_foreign(env):
     """A small raw-key workload for interpretation on other targets (32-bit, big-endian): positions on both
     sides of 2^32, every byte of the counter non-zero, the last value."""
@@ -261,13 +323,13 @@ def build_foreign(env):
     return cw
 
 
-MONITORS = {"positions": monitor, "exhaustion": monitor, "burst": monitor, "volume": monitor, "foreign": monitor}
+MONITORS = {"positions": monitor, "exhaustion": monitor, "burst": monitor, "volume": monitor, "foreign": monitor, "probe": monitor}
 
 
 def run(env):
     nrand, reps, nburst = env.pick((1000, 4, 1 << 20), (100000, 40, 1 << 24))
     for name, cw in (("positions", build_positions(env, nrand)), ("exhaustion", build_exhaustion(env, reps)),
-                     ("burst", build_burst(env, nburst))):
+                     ("probe", build_probe(env, env.pick(12, 200))), ("burst", build_burst(env, nburst))):
         res = env.drive(name, cw.text())
         env.require_complete(res, name)
         env.pmap(monitor, res.sessions, workload=name)
@@ -277,9 +339,17 @@ def run(env):
         env.require_complete(res, "volume")
         env.pmap(monitor, res.sessions, workload="volume")
         env.extra_cov["volume_bytes_per_context"] = 66000 * (1 << 20)
+        matrix = {}
+        mtext = build_positions(env, 200).text()
+        for b in ("opt0", "opt1", "opts", "optz", "native"):
+            rb = env.drive("matrix", mtext, build=b)
+            env.require_complete(rb, "matrix/" + b)
+            env.pmap(monitor, rb.sessions, workload="positions")
+            matrix[b] = sum(len(x.ops) for x in rb.sessions)
+        env.extra_cov["build_configuration_matrix_ops"] = matrix
         ftext = build_foreign(env).text()
         foreign = {}
-        for target in ("i686-unknown-linux-gnu", "s390x-unknown-linux-gnu"):
+        for target in ("i686-unknown-linux-gnu", "s390x-unknown-linux-gnu", "aarch64-unknown-linux-gnu"):
             sessions, note = fw.run_miri(env, "foreign-" + target.split("-")[0], ftext, target=target)
             foreign[target] = note
             if sessions is not None:
